@@ -24,6 +24,46 @@ REG = dict(category="model_checking",
     "specification); TLC trace validation of API-family probes; TLC interleaving model over a measured shared-write footprint",
     design_ref="DESIGN.md §4 C20")
 
+def repo_context_trace(chk):
+    import c13_trace
+    exe = c13_trace.build_tests(chk)
+    path = chk.out + "/ctx.raw.ndjson"
+    targets = ["all_proper_context_tests", "all_static_context_tests", "ecmult_gen_blind", "plug_sha256_compression_tests",
+               "ec_illegal_argument_tests", "deprecated_context_flags_test", "selftest_tests", "test_ecdh_ctx_sha256", "ecdsa_ctx_sha256"]
+    p = vlib.run([exe] + ["--target=" + t for t in targets] + ["--iterations=%d" % (4 if chk.tier == "quick" else 32), "--seed=%032x" % (chk.seed & (2**128 - 1))],
+                 900, env={"SECP256K1_ZKP_VERIF_TRACE": path})
+    if p.returncode != 0:
+        raise Infra("the repository's context tests failed under the hook build (not a property verdict):\n" + p.stdout[-1500:])
+    evs = [e for e in vlib.read_ndjson(path) if e["e"].startswith("Ctx")]
+    if len(evs) < 10:
+        raise Infra("context hook trace unexpectedly short (%d events): hooks missing?" % len(evs))
+    ptr = {}
+    for e in evs:      # pure renaming of pointers
+        e["c"] = ptr.setdefault(e.pop("ctx"), len(ptr))
+        src = e.pop("src"); e["s"] = ptr.setdefault(src, len(ptr)) if src != "(nil)" else -1
+    tpath = chk.out + "/ctxtrace.ndjson"
+    def accepted(n):
+        vlib.write_ndjson(tpath, evs[:n])
+        r = chk.tlc("Trace_C20.tla", "C20_ctxtrace.cfg", env={"TRACE": tpath}, workers=1, expect_ok=False, timeout=1800)
+        if "Invariant NotAccepted is violated" in r.out: return True, r
+        if r.ok: return False, r
+        raise Infra("context trace validation could not be evaluated:\n" + r.tail(40))
+    ok, r = accepted(len(evs))
+    chk.traces_validated += 1; chk.evaluations += len(evs)
+    for e in evs: chk.case_labels["T:%s/ret=%s" % (e["e"], e["ret"])] += 1
+    if ok:
+        ad = re.findall(r"/\\ adopted = (\d+)", r.out)
+        log("[C20] repository context tests: %d life-cycle events explained by the blinding specification (adopted contexts: %s)" % (len(evs), ad[-1] if ad else "?"))
+        chk.samples.append({"direction": "impl->spec", "source": "repository context tests with hooks", "events": [chk.shorten(e) for e in evs[:2]]})
+        return
+    lo, hi = 0, len(evs)
+    while lo < hi:
+        mid = (lo + hi + 1) // 2
+        if accepted(mid)[0]: lo = mid
+        else: hi = mid - 1
+    chk.violation("event %d of the repository's context tests is not explained by the specification (blinding state after %s differs from "
+                  "BlindReset/BlindStep, or a clone differs from its source): %s" % (lo + 1, evs[lo]["e"], json.dumps(evs[lo])[:400]), evs[max(0, lo - 5): lo + 1])
+
 def skey(s): return json.dumps(s, sort_keys=True)
 
 def flat_alive(exp):
@@ -141,6 +181,8 @@ def run(chk):
     ev = chk.record(probe, "std")
     probes = [e for e in ev if e["e"] in ("CtxCallAll", "CtxCallStatic", "CtxReadOnlyCallAll", "CtxFault")]
     if probes: chk.validate(probes, MODULE, "C20_trace.cfg", "probes")
+    # ---- T2: the repository's own context tests, traced by the guarded hooks, validated against the blinding specification ----
+    repo_context_trace(chk)
     # ---- threads: measured footprint -> TLC interleaving model ----
     syms, anchor = writable_library_globals(chk.bins["std"])
     fp = chk.record([{"e": "CtxGlobalsProbe", "in": {"anchor": anchor or 0, "syms": [[a, n] for (_, a, n) in syms]}}], "std")
